@@ -298,6 +298,13 @@ NextSim ==
       [] c = "deltook"  -> IF latest = 0 \/ DelEff = {} THEN SaveVersion ELSE \E n \in DelEff : DeleteVersionsTo(n)
       [] c = "import"   -> IF latest = 0 THEN SaveVersion ELSE \E t \in Retained, f \in BOOLEAN : ImportSwitch(t, f)
       [] c = "savecs"   -> \E cs \in CSCands : SaveChangeSet(cs)
+      \* replay of the next committed version through SaveChangeSet (a node that restarts from an older version):
+      \* the commit is a no-op iff the replayed tree has the committed hash, an error otherwise
+      [] c = "savecsreplay" -> IF version # 0 /\ version < latest /\ ~Dirty /\ (version + 1) \in Retained
+                               THEN SaveChangeSet(Changes(TreeAt(version), saved[version + 1], version))
+                               ELSE IF ~Dirty /\ latest # 0 /\ version = latest /\ (latest - 1) \in Retained
+                               THEN LoadVersion(latest - 1)
+                               ELSE SaveVersion
       [] c = "expopen"  -> IF Retained \ pins = {} THEN Rollback ELSE \E t \in Retained \ pins : ExportOpen(t)
       [] c = "expclose" -> IF pins = {} THEN Rollback ELSE \E t \in pins : ExportClose(t)
       [] OTHER          -> SaveVersion
